@@ -22,6 +22,7 @@ CONSTANTS PrefCurrent,        \* TRUE: images.json / rpms.json win over image-ma
           Dev_Fallback        \* deviation: an undecodable preferred file falls through to the other name
 Kinds == {"info", "images", "rpms", "modules"}
 HasLeg(k) == k \in {"images", "rpms"}
+\* @type: Set(<<Str, Str>>);
 Files == {<<k, "cur">> : k \in Kinds} \cup {<<k, "leg">> : k \in {"images", "rpms"}}
 VARIABLES disk,      \* [Files -> Nat]
           cache,     \* [Kinds -> Nat]   0 = nothing loaded, v = the document v is held
@@ -32,6 +33,7 @@ VARIABLES disk,      \* [Files -> Nat]
           last       \* what the latest action did and what the caller saw
 vars == <<disk, cache, failed, edit, fresh, decoy, last>>
 None == [a |-> "none", k |-> "", s |-> "", w |-> "", out |-> "", v |-> 0, e |-> 0]
+\* @type: (Str) => Seq(Str);
 Order(k) == IF HasLeg(k) THEN (IF PrefCurrent THEN <<"cur", "leg">> ELSE <<"leg", "cur">>) ELSE <<"cur">>
 Present(k) == SelectSeq(Order(k), LAMBDA s : disk[<<k, s>>] # 0)
 \* the file an access of kind k reads, "" when there is none
